@@ -120,7 +120,7 @@ fn fraction_to_nanosec(fraction: u32) -> u32 {
 }
 
 fn nanosec_to_fraction(nanosec: u32) -> u32 {
-    (((nanosec as u64 * (1u64 << 32)) + (500_000_000)) / 1_000_000_000) as u32
+    (nanosec as u64 * (1u64 << 32)).div_ceil(1_000_000_000) as u32
 }
 
 impl From<crate::rtps::behavior_types::Duration> for Duration {
